@@ -401,6 +401,22 @@ func classifyErr(v ssa.Value, at, pred *ssa.BasicBlock, conds []Cond, depth int)
 			if g, ok := x.X.(*ssa.Global); ok && strings.HasPrefix(g.Name(), "Err") || ok && strings.HasPrefix(g.Name(), "err") {
 				return ErrSet
 			}
+			// a variable captured by a closure lives in a cell: another load of the cell that was
+			// tested, with no store in between, carries the same value
+			if a, ok := x.X.(*ssa.Alloc); ok && a.Referrers() != nil {
+				for _, r := range *a.Referrers() {
+					l1, ok := r.(*ssa.UnOp)
+					if !ok || l1 == x || l1.Op != token.MUL || !sameCellValue(l1, x) {
+						continue
+					}
+					if KnownNonNil(l1, conds) {
+						return ErrSet
+					}
+					if KnownNil(l1, conds) {
+						return ErrNil
+					}
+				}
+			}
 		}
 	case *ssa.Call:
 		d := CallDesc(&x.Call)
@@ -544,4 +560,74 @@ func DominatesInstr(a, b ssa.Instruction) bool {
 		return IndexOf(a) < IndexOf(b)
 	}
 	return a.Block().Dominates(b.Block())
+}
+
+// sameCellValue reports whether two loads of the same local cell (l1 dominating l2) must read
+// the same value: no store to the cell can execute between them and no closure writes it.
+func sameCellValue(l1, l2 *ssa.UnOp) bool {
+	a, ok := l1.X.(*ssa.Alloc)
+	if !ok || l2.X != l1.X || !DominatesInstr(l1, l2) {
+		return false
+	}
+	reach := func(from *ssa.BasicBlock) map[*ssa.BasicBlock]bool {
+		seen := map[*ssa.BasicBlock]bool{}
+		stack := append([]*ssa.BasicBlock(nil), from.Succs...)
+		for len(stack) > 0 {
+			b := stack[len(stack)-1]
+			stack = stack[:len(stack)-1]
+			if seen[b] {
+				continue
+			}
+			seen[b] = true
+			stack = append(stack, b.Succs...)
+		}
+		return seen
+	}
+	after1 := reach(l1.Block())
+	for _, r := range *a.Referrers() {
+		switch x := r.(type) {
+		case *ssa.Store:
+			if x.Addr != ssa.Value(a) {
+				return false // the cell's address escapes
+			}
+			sb := x.Block()
+			afterL1 := after1[sb] || (sb == l1.Block() && IndexOf(x) > IndexOf(l1))
+			beforeL2 := reach(sb)[l2.Block()] || (sb == l2.Block() && IndexOf(x) < IndexOf(l2))
+			if sb == l1.Block() && sb == l2.Block() {
+				afterL1 = IndexOf(x) > IndexOf(l1)
+				beforeL2 = IndexOf(x) < IndexOf(l2)
+			}
+			if afterL1 && beforeL2 {
+				return false
+			}
+		case *ssa.MakeClosure:
+			fn, _ := x.Fn.(*ssa.Function)
+			if fn == nil {
+				return false
+			}
+			for i, bnd := range x.Bindings {
+				if bnd != ssa.Value(a) || i >= len(fn.FreeVars) {
+					continue
+				}
+				fv := fn.FreeVars[i]
+				if fv.Referrers() == nil {
+					continue
+				}
+				for _, fr := range *fv.Referrers() {
+					if st, ok := fr.(*ssa.Store); ok && st.Addr == ssa.Value(fv) {
+						return false
+					}
+					if _, isLoad := fr.(*ssa.UnOp); !isLoad {
+						if _, isSt := fr.(*ssa.Store); !isSt {
+							return false // address passed on
+						}
+					}
+				}
+			}
+		case *ssa.UnOp:
+		default:
+			return false
+		}
+	}
+	return true
 }
